@@ -16,7 +16,11 @@ RULE = (
     "snax_gemmx whose inner dart.generic is empty or holds kernel.add / kernel.mul / kernel.rescale on i32/i8; the same on snax_xdma with a "
     "kernel no streamer extension provides), further data-mover ops (dart regions on snax_xdma with an extension kernel: kernel.add i32, "
     "kernel.rescale i32->i8 / i8->i32) and neutral ops (test.op, external calls, snax.cluster_sync_op, alloc, subview); operands are arguments, allocs and "
-    "static/dynamic subviews; optional index return value; nb_cores in 2..5; 2 input vectors. The real dispatch-regions{nb_cores=N} is "
+    "static/dynamic subviews; optional index return value; nb_cores in 2..5; 2 input vectors. dart regions may be fused (2-3 dart.generic ops "
+    "chained through streams; the first generic's kernel decides the core, as the rules document). Modules hold several functions: "
+    "main (no explicit visibility / public / private) plus 0-2 helper functions with a body (private, public or no visibility; called "
+    "from main or not) next to private declarations; every function is executed and checked per core as an entry point, and "
+    "main's trace includes the ops of the helpers it calls. The real dispatch-regions{nb_cores=N} is "
     "applied; original and dispatched function are executed once per core id on the multi-core machine (snax_cluster_core_idx returns the id) "
     "and the trace of tagged ops (tag, evaluated operands) of core c must equal the original trace filtered by the rule known by "
     "construction (data-mover ops iff c == N-1, compute ops iff c == 0, others always), order preserved, same return value. Then xDSL's "
@@ -164,8 +168,13 @@ def _run(mod, fname, args, c, n, what, detail):
 
 
 def prop(r):
-    built = G.build(r)
+    built = G.build_module(r)
     n = r["nb_cores"]
+    kinds = built.all_kinds
+    opnames = dict(built.opnames)
+    for hb in built.helpers.values():
+        opnames.update(hb.opnames)
+    funcs = [("main", built)] + list(built.helpers.items())
     orig = parse(built.text, ctx14())
     orig.verify()
     disp = orig.clone()
@@ -184,11 +193,12 @@ def prop(r):
     det = Lazy(nb_cores=n, before=before, after=lambda: to_text(disp))
     for op in disp.walk():
         t = tag_of(op)
-        if t is not None and ":snax_xdma:" in built.opnames.get(t, "") and built.kinds[t] == G.COMPUTE and not core_guard_ancestors(op):
-            raise Violation(XDMA_SIG, det.done(tag=t, op=built.opnames[t]))
-    s = structural(disp, built)
-    if s is not None:
-        raise Violation("dispatch:structure:" + s.split(":")[0], det.done(problem=s))
+        if t is not None and ":snax_xdma:" in opnames.get(t, "") and kinds[t] == G.COMPUTE and not core_guard_ancestors(op):
+            raise Violation(XDMA_SIG, det.done(tag=t, op=opnames[t]))
+    for fname, fb in funcs:
+        s = structural(disp, fb, fname)
+        if s is not None:
+            raise Violation("dispatch:structure:" + s.split(":")[0], det.done(problem=s, function=fname))
     dom = dominance_errors(disp)
     if dom:
         raise Violation("dispatch:use-before-def-after-pass", det.done(errors=dom[:3]))
@@ -196,10 +206,9 @@ def prop(r):
     single_block = len(r["blocks"]) == 1
     pinned = None
     pin_class = "pin:skipped-multi-block"
-    table = {}
+    tables = {}
     if single_block:
         pinned = disp.clone()
-        ndisp = sum(1 for k in built.kinds.values() if k != G.NEUTRAL)
         try:
             with time_limit(30):
                 run_pass(pinned, "function-constant-pinning", ctx=ctx14())
@@ -209,70 +218,79 @@ def prop(r):
         except Exception as e:
             raise Violation(f"pin:raises:{type(e).__name__}", det.done(error=str(e)[:300]))
         det_p = det.plus(pinned=lambda: to_text(pinned))
-        if ndisp:
-            table = pinned_table(pinned)
+        pin_class = "pin:nothing-to-pin"
+        for fname, fb in funcs:
+            if not any(k != G.NEUTRAL for k in fb.kinds.values()):
+                continue
+            table = pinned_table(pinned, fname)
             if sorted(table) != list(range(n)):
-                raise Violation("pin:specialisation-missing-for-some-core", det_p.done(found=sorted(table)))
+                raise Violation("pin:specialisation-missing-for-some-core", det_p.done(found=sorted(table), function=fname))
+            tables[fname] = table
             pin_class = "pin:checked"
-            for op in pinned.walk():
-                if "pin_to_constants" in op.attributes:
-                    raise Violation("pin:annotation-left-behind", det_p.done())
-        else:
-            pin_class = "pin:nothing-to-pin"
+        for op in pinned.walk():
+            if "pin_to_constants" in op.attributes:
+                raise Violation("pin:annotation-left-behind", det_p.done())
+        if not tables:
             pinned = None
 
     n_exec = 0
     evs = 0
-    for k in range(len(r["inputs"])):
-        args, trips = G.input_vector(r, built, k)
-        try:
-            m0 = run_core(orig, "main", args, 0, n, kinds=None, log_accesses=False)
-        except StepBudget:
-            continue
-        d = det.plus(args=[a if not isinstance(a, tuple) else list(a) for a in args], arg_names=built.arg_names)
-        for c in range(n):
-            expected = [e for e in m0.trace if keep(built.kinds.get(e[0], G.NEUTRAL), c, n)]
-            m1 = _run(disp, "main", args, c, n, "dispatch", d)
-            if m1 is None:
+    for fname, fb in funcs:
+        for k in range(len(r["inputs"])):
+            args, trips = G.input_vector(r, fb, k)
+            try:
+                m0 = run_core(orig, fname, args, 0, n, kinds=None, log_accesses=False)
+            except StepBudget:
                 continue
-            kind, at = first_diff(expected, m1.trace, built.kinds, c, n)
-            if kind is not None:
-                sig = "dispatch:core-trace:" + kind
-                if kind.endswith("-op-ran-on-foreign-core") and later_block_unguarded(disp, built, m1.trace[at][0]):
-                    sig = LATER_BLOCK_SIG
-                raise Violation(sig, d.done(core=c, at=at, expected=expected[max(0, at - 2): at + 3], got=m1.trace[max(0, at - 2): at + 3]))
-            if m1.result != m0.result:
-                raise Violation("dispatch:return-value-differs", d.done(core=c, expected=m0.result, got=m1.result))
-            n_exec += 1
-            evs += len(m1.trace)
-            if pinned is not None:
+            d = det.plus(function=fname, args=[a if not isinstance(a, tuple) else list(a) for a in args], arg_names=fb.arg_names)
+            for c in range(n):
+                expected = [e for e in m0.trace if keep(kinds.get(e[0], G.NEUTRAL), c, n)]
+                m1 = _run(disp, fname, args, c, n, "dispatch", d)
+                if m1 is None:
+                    continue
+                kind, at = first_diff(expected, m1.trace, kinds, c, n)
+                if kind is not None:
+                    sig = "dispatch:core-trace:" + kind
+                    if fname == "main" and kind.endswith("-op-ran-on-foreign-core") and later_block_unguarded(disp, built, m1.trace[at][0]):
+                        sig = LATER_BLOCK_SIG
+                    raise Violation(sig, d.done(core=c, at=at, expected=expected[max(0, at - 2): at + 3], got=m1.trace[max(0, at - 2): at + 3]))
+                if m1.result != m0.result:
+                    raise Violation("dispatch:return-value-differs", d.done(core=c, expected=m0.result, got=m1.result))
+                n_exec += 1
+                evs += len(m1.trace)
+                if pinned is None:
+                    continue
                 d_p = d.plus(pinned=lambda: to_text(pinned))
-                m2 = _run(pinned, "main", args, c, n, "pin", d_p)
+                m2 = _run(pinned, fname, args, c, n, "pin", d_p)
                 if m2 is not None:
-                    kind, at = first_diff(expected, m2.trace, built.kinds, c, n)
+                    kind, at = first_diff(expected, m2.trace, kinds, c, n)
                     if kind is not None:
                         raise Violation("pin:entry-function-core-trace:" + kind, d_p.done(core=c, at=at, expected=expected[max(0, at - 2): at + 3],
                                                                                       got=m2.trace[max(0, at - 2): at + 3]))
                     if m2.result != m0.result:
                         raise Violation("pin:return-value-differs", d_p.done(core=c, expected=m0.result, got=m2.result))
+                if fname not in tables:
+                    continue
                 # the specialised function itself, executed on a machine whose core id is a different one: it must not consult it
-                other = (c + 1) % n
-                m3 = _run(pinned, table[c], args, other, n, "pin", d_p)
+                # (unless it calls a helper function, which reads the core id on its own)
+                other = c if fb.calls_helper else (c + 1) % n
+                spec = tables[fname][c]
+                m3 = _run(pinned, spec, args, other, n, "pin", d_p)
                 if m3 is not None:
-                    kind, at = first_diff(expected, m3.trace, built.kinds, c, n)
+                    kind, at = first_diff(expected, m3.trace, kinds, c, n)
                     if kind is not None:
                         raise Violation("pin:specialised-function-core-trace:" + kind,
-                                        d_p.done(core=c, function=table[c], at=at, expected=expected[max(0, at - 2): at + 3],
-                                             got=m3.trace[max(0, at - 2): at + 3]))
-                    if m3.core_idx_calls:
-                        raise Violation("pin:specialised-function-reads-core-id", d_p.done(core=c, function=table[c]))
+                                        d_p.done(core=c, specialised=spec, at=at, expected=expected[max(0, at - 2): at + 3],
+                                                 got=m3.trace[max(0, at - 2): at + 3]))
+                    if m3.core_idx_calls and not fb.calls_helper:
+                        raise Violation("pin:specialised-function-reads-core-id", d_p.done(core=c, specialised=spec))
                     if m3.result != m0.result:
                         raise Violation("pin:return-value-differs", d_p.done(core=c, expected=m0.result, got=m3.result))
     if n_exec == 0:
         raise Outside("all executions exceeded the step budget")
     f = built.features
     nontrivial = (G.DM in f and G.COMPUTE in f and "nested_dispatchable" in f and ("adjacent_same" in f or "adjacent_mixed" in f) and evs > 0)
-    cls = [f"N:{n}", f"blocks:{len(r['blocks'])}", f"depth:{built.max_depth}", pin_class] + sorted(f)
+    cls = [f"N:{n}", f"blocks:{len(r['blocks'])}", f"depth:{built.max_depth}", pin_class, f"main-visibility:{r.get('vis') or 'none'}"] + sorted(f)
     if r.get("ret"):
         cls.append("returns-value")
     sample = None
